@@ -5,9 +5,17 @@
   Trace-level statements (`handler_only_if_parsed`, `handler_start_once_and_fresh`, `request_carries`,
   `reply_on_receiving_socket`, `exactly_once_per_datagram`) are about the log of every reachable state:
   which step of the schedule an event came from and what the goroutine had captured (`St.origin`).
+
+  Second audit: the `reply` event carries the octets written, `reply_answers_its_request` links every
+  `reply` of the log to the `recv` that spawned its goroutine, to the request handed over and to
+  `reply_authentic`; `keeps_serving` is the "keeps serving" clause of C02; the `fine_…` theorems state
+  the trace-level clauses for the machine RV.Model.Server2 in which `ReadFrom` returning and the `go`
+  statement are separate steps.
 -/
 import RV.Model.Server
+import RV.Model.Server2
 import RV.Proofs.Server
+import RV.Proofs.Server2
 namespace RV.C06
 open RV RV.Server
 
@@ -219,20 +227,23 @@ theorem request_ctx_cancelled_by_shutdown (H : Hash) (cfg : Cfg) (hv : cfg.varia
 
 /-- The reply goes out on the receiving socket to the request's source address: every `reply` event
     of goroutine `t` names the conn of the Serve call that read `t`'s datagram and the address that
-    datagram came from; it was written by a `taskReply t` step while `t`'s handler was running. -/
+    datagram came from; it was written by a `taskReply t _ _` step while `t`'s handler was running.
+    (Second audit: the `reply` event now also carries the octets written and the label the handler's
+    choice of code and attributes, so the statement has the extra `w`, universally quantified, and
+    `code`, `attrs`, existentially; for what `w` is see `reply_answers_its_request`.) -/
 theorem reply_on_receiving_socket (H : Hash) (cfg : Cfg) (conns : List Nat) (nD : Nat) (ls : List Label)
-    (t conn addr : Nat)
-    (h : Event.reply t conn addr ∈ (run H cfg (initWith conns nD) ls).log) :
+    (t conn addr : Nat) (w : Bytes)
+    (h : Event.reply t conn addr w ∈ (run H cfg (initWith conns nD) ls).log) :
     ∃ (i peer : Nat) (d : Bytes) (key : Key),
       Event.recv t i peer d ∈ (run H cfg (initWith conns nD) ls).log ∧
       (run H cfg (initWith conns nD) ls).origin[t]? = some ⟨i, peer, d⟩ ∧
       (∃ pc, (run H cfg (initWith conns nD) ls).tasks[t]? = some ⟨i, pc⟩) ∧
       conn = conns.getD i 0 ∧ addr = peer ∧
       Event.handlerStart t key ∈ (run H cfg (initWith conns nD) ls).log ∧
-      ∃ ls1 ls2, ls = ls1 ++ Label.taskReply t :: ls2 ∧
+      ∃ ls1 ls2 code attrs, ls = ls1 ++ Label.taskReply t code attrs :: ls2 ∧
         (run H cfg (initWith conns nD) ls1).tasks[t]? = some ⟨i, .inHandler key⟩ := by
   have hO := InvO_run H cfg conns nD ls
-  obtain ⟨⟨i, peer, d⟩, key, ho, ha, hc, hhs⟩ := hO.rep t conn addr h
+  obtain ⟨⟨i, peer, d⟩, key, ho, ha, hc, hhs, _⟩ := hO.rep t conn addr w h
   simp only at ha hc
   rw [connOf_run] at hc
   have htl : t < (run H cfg (initWith conns nD) ls).tasks.length := by
@@ -242,7 +253,7 @@ theorem reply_on_receiving_socket (H : Hash) (cfg : Cfg) (conns : List Nat) (nD 
   simp only at hserve
   obtain ⟨ls1, l, ls2, s1', hls, hst, _, hnew⟩ :=
     log_provenance H cfg _ ls (initWith conns nD) h (by simp [initWith])
-  obtain ⟨rfl, i1, key1, ht1, _, _⟩ := newEv_reply hnew
+  obtain ⟨code, attrs, rfl, i1, key1, _, ht1, _, _⟩ := newEv_reply hnew
   -- the goroutine that replied is in the handler whose start is in the log; same Serve call
   have hO1 := InvO_run H cfg conns nD ls1
   obtain ⟨o1, ho1, hio1⟩ := origin_of_task hO1 ht1
@@ -260,7 +271,7 @@ theorem reply_on_receiving_socket (H : Hash) (cfg : Cfg) (conns : List Nat) (nD 
   rw [ho] at ho'
   have hi : i = o1.serve := by cases ho'; rfl
   refine ⟨i, peer, d, key1, (recv_mem_iff hO t i peer d).mpr ho, ho,
-    ⟨((run H cfg (initWith conns nD) ls).tasks[t]).pc, ?_⟩, hc, ha, hhs, ls1, ls2, hls, ?_⟩
+    ⟨((run H cfg (initWith conns nD) ls).tasks[t]).pc, ?_⟩, hc, ha, hhs, ls1, ls2, code, attrs, hls, ?_⟩
   · rw [htk]; congr 1
     cases hh : (run H cfg (initWith conns nD) ls).tasks[t] with
     | mk a b => rw [hh] at hserve; simp only at hserve; subst hserve; rfl
@@ -296,6 +307,205 @@ theorem reply_authentic (H : Hash) (hH : ∀ x, (H x).length = 16) (cfg : Cfg) (
     isAuthenticResponse H w d p.secret = true := by
   exact reply_authentic' H hH cfg peer d key p code attrs w h hc he
 
+/-! ### Second audit: the reply on the wire, the secret source's pair, keeps serving, the fine machine -/
+
+/-- The reply, at trace level.  Every `reply` event in the log of a reachable state — `conn.WriteTo(w, addr)`
+    on socket `conn` — belongs to a goroutine `t` whose `recv` event is in the log (datagram `d` from `peer`,
+    read by Serve call `i`), and
+    * its destination is that datagram's source address, its socket the conn that received the datagram;
+    * the handler of `t` was started, with a `request` event carrying the packet `p` that `d` parses to
+      under the secret `sec` the secret source gave for `peer` (non-empty), that peer and that conn;
+    * the octets `w` are the encoding of `p.Response(code)` with the handler's attributes, for some `code`
+      and `attrs` (the handler's choice: label `taskReply t code attrs`);
+    * so (with `reply_authentic`, i.e. C03) for every reply code `w` carries a Response Authenticator that
+      is valid for the request DATAGRAM `d` under `sec`. -/
+theorem reply_answers_its_request (H : Hash) (hH : ∀ x, (H x).length = 16) (cfg : Cfg) (conns : List Nat)
+    (nD : Nat) (ls : List Label) (t conn addr : Nat) (w : Bytes)
+    (h : Event.reply t conn addr w ∈ (run H cfg (initWith conns nD) ls).log) :
+    ∃ (i peer : Nat) (d : Bytes) (key : Key) (p : Packet) (sec : Bytes) (code : Int) (attrs : Attrs),
+      Event.recv t i peer d ∈ (run H cfg (initWith conns nD) ls).log ∧
+      addr = peer ∧ conn = conns.getD i 0 ∧
+      Event.request t p peer (conns.getD i 0) .server ∈ (run H cfg (initWith conns nD) ls).log ∧
+      Event.handlerStart t key ∈ (run H cfg (initWith conns nD) ls).log ∧
+      classify H cfg peer d = .handle key p ∧
+      cfg.secretOf peer = .secret sec ∧ sec ≠ [] ∧ parse d sec = .ok p ∧ p.secret = sec ∧
+      encode H { response p code with attrs := attrs } = .ok w ∧
+      (Rfc.encClass code = .hashReqAuth → isAuthenticResponse H w d sec = true) := by
+  obtain ⟨i, peer, d, key, p, sec, code, attrs, h1, _, h3, h4, h5, h6, h7, h8, h9, h10, h11, h12, h13⟩ :=
+    reply_answers_of_InvO hH (InvO_run H cfg conns nD ls) h
+  rw [connOf_run] at h4 h5
+  exact ⟨i, peer, d, key, p, sec, code, attrs, h1, h3, h4, h5, h6, h7, h8, h9, h10, h11, h12, h13⟩
+
+/-- Conversely, a handler that is running CAN write its reply whenever the encoder accepts it: the
+    `taskReply` step is enabled and appends exactly the `reply` event with the receiving conn, the
+    source address and the encoded octets. -/
+theorem reply_written_if_encodable (H : Hash) (cfg : Cfg) (conns : List Nat) (nD : Nat) (ls : List Label)
+    (t i : Nat) (key : Key) (code : Int) (attrs : Attrs)
+    (ht : (run H cfg (initWith conns nD) ls).tasks[t]? = some ⟨i, .inHandler key⟩) :
+    ∃ (peer : Nat) (d : Bytes) (p : Packet), (run H cfg (initWith conns nD) ls).origin[t]? = some ⟨i, peer, d⟩ ∧
+      classify H cfg peer d = .handle key p ∧
+      ∀ w, encode H { response p code with attrs := attrs } = .ok w →
+        step H cfg (run H cfg (initWith conns nD) ls) (.taskReply t code attrs) =
+          some { run H cfg (initWith conns nD) ls with
+                 log := (run H cfg (initWith conns nD) ls).log ++ [.reply t (conns.getD i 0) peer w] } := by
+  have hO := InvO_run H cfg conns nD ls
+  obtain ⟨⟨i', peer, d⟩, ho, hio⟩ := origin_of_task hO ht
+  simp only at hio; subst hio
+  obtain ⟨p, hcl⟩ := hO.hand t i key _ ht ho
+  simp only at hcl
+  refine ⟨peer, d, p, ho, hcl, ?_⟩
+  intro w hw
+  simp only [step, ht, packetOf_of_origin ho hcl, hw, peerOf_eq ho, connOf_run]
+
+/-- The secret source's PAIR.  `RADIUSSecret` may return a secret together with a non-nil error; the code
+    tests the error first, so such a datagram is dropped like any other secret-source failure, whatever
+    the secret (server-packet.go:151-155) — the model's three-valued answer loses nothing. -/
+theorem secret_with_error_is_dropped (H : Hash) (cfg : Cfg) (peer : Nat) (d sec : Bytes)
+    (h : cfg.secretOf peer = SecretAns.ofPair sec true) : classify H cfg peer d = .dropSecretError := by
+  simp [classify, h, SecretAns.ofPair]
+
+/-- … and without an error the pair is read as before: an empty secret is refused, any other is used. -/
+theorem secret_without_error (sec : Bytes) :
+    SecretAns.ofPair sec false = (if sec = [] then SecretAns.empty else SecretAns.secret sec) := by
+  cases sec <;> simp [SecretAns.ofPair]
+
+/-- Keeps serving (server clause of C02).  In every reachable state a Serve call that is in its read loop
+    stays in it under EVERY step other than a failing read of its own (`serveReadErr i`,
+    `serveReadFail i _`): no datagram — dropped at any stage of the pipeline, handed to a handler, or a
+    duplicate —, no other Serve call, handler or Shutdown call ends it; and afterwards, unless Shutdown
+    has been requested, it can take the next datagram, whatever that is (`serveRecv i peer d` is enabled:
+    no conn is closed before Shutdown). -/
+theorem keeps_serving (H : Hash) (cfg : Cfg) (hv : cfg.variant = .fixed) (conns : List Nat) (nD : Nat)
+    (ls : List Label) (i : Nat) (l : Label) (s' : St)
+    (hi : (run H cfg (initWith conns nD) ls).serves[i]? = some .running)
+    (hs : step H cfg (run H cfg (initWith conns nD) ls) l = some s')
+    (hl : l ≠ .serveReadErr i ∧ ∀ k, l ≠ .serveReadFail i k) :
+    s'.serves[i]? = some .running ∧
+    (s'.sd = false → ∀ peer d, step H cfg s' (.serveRecv i peer d) = some (spawn H cfg s' i peer d)) := by
+  have hI := InvF_run H cfg hv conns nD ls
+  have hrun : s'.serves[i]? = some .running := by
+    refine step_running_stable hs hi ?_
+    cases l with
+    | serveRecv j peer d =>
+      by_cases hj : j = i
+      · subst hj; exact Or.inr ⟨peer, d, rfl⟩
+      · left; simp [Label.readLoopOf, hj]
+    | serveReadErr j =>
+      left; simp only [Label.readLoopOf, ne_eq, Option.some.injEq]
+      intro e; subst e; exact hl.1 rfl
+    | serveReadFail j k =>
+      left; simp only [Label.readLoopOf, ne_eq, Option.some.injEq]
+      intro e; subst e; exact hl.2 k rfl
+    | _ => left; simp [Label.readLoopOf]
+  exact ⟨hrun, fun hsd peer d => serveRecv_enabled_before_shutdown (InvF_step hv l hI hs) hrun hsd peer d⟩
+
+/-- … in particular after a dropped datagram: the goroutine's `taskRun` step, whatever its outcome, leaves
+    every Serve call where it is and does not touch `shutdownRequested`. -/
+theorem dropped_datagram_keeps_serving (H : Hash) (cfg : Cfg) (hv : cfg.variant = .fixed) (conns : List Nat) (nD : Nat)
+    (ls : List Label) (i t : Nat) (s' : St)
+    (hi : (run H cfg (initWith conns nD) ls).serves[i]? = some .running)
+    (hsd : (run H cfg (initWith conns nD) ls).sd = false)
+    (hs : step H cfg (run H cfg (initWith conns nD) ls) (.taskRun t) = some s') :
+    s'.serves[i]? = some .running ∧ s'.sd = false ∧
+    ∀ peer d, step H cfg s' (.serveRecv i peer d) = some (spawn H cfg s' i peer d) := by
+  obtain ⟨h1, h2⟩ := keeps_serving H cfg hv conns nD ls i (.taskRun t) s' hi hs
+    ⟨(by intro e; cases e), (by intro k e; cases e)⟩
+  have h3 : s'.sd = false := by
+    rw [(step_sd_mono hs).2 (by intro j e; cases e)]; exact hsd
+  exact ⟨h1, h3, h2 h3⟩
+
+/-! #### the trace-level clauses in the fine machine (`serveRead` / `serveSpawn` separate) -/
+
+/-- the server clause of C02 in the fine machine: a started handler belongs to a goroutine whose datagram —
+    read by a `serveRead`, handed over by a later `serveSpawn`, possibly with a Shutdown in between — is
+    authentic under a non-empty secret and parses to the packet handed over -/
+theorem fine_handler_only_if_parsed (H : Hash) (cfg : Cfg) (conns : List Nat) (nD : Nat) (ls : List Label2)
+    (t : Nat) (key : Key)
+    (h : Event.handlerStart t key ∈ (run2 H cfg (initWith2 conns nD) ls).base.log) :
+    ∃ (i peer : Nat) (d : Bytes) (p : Packet) (sec : Bytes),
+      Event.recv t i peer d ∈ (run2 H cfg (initWith2 conns nD) ls).base.log ∧
+      (run2 H cfg (initWith2 conns nD) ls).base.origin[t]? = some ⟨i, peer, d⟩ ∧
+      classify H cfg peer d = .handle key p ∧
+      Event.request t p peer (conns.getD i 0) .server ∈ (run2 H cfg (initWith2 conns nD) ls).base.log ∧
+      cfg.secretOf peer = .secret sec ∧ sec ≠ [] ∧
+      (cfg.skipVerify = true ∨ isAuthenticRequest H d sec = true) ∧
+      parse d sec = .ok p ∧ key = (peer, p.id) := by
+  have hO := InvO_run2 H cfg conns nD ls
+  obtain ⟨⟨i, peer, d⟩, p, ho, hcl, hreq⟩ := hO.hs t key h
+  simp only at hcl hreq
+  rw [connOf_run2] at hreq
+  obtain ⟨sec, a, b, c, e, f⟩ := (classify_handle_iff' H cfg peer d key p).mp hcl
+  exact ⟨i, peer, d, p, sec, (recv_mem_iff hO t i peer d).mpr ho, ho, hcl, hreq, a, b, c, e, f⟩
+
+/-- at most one handler per (Serve call, source, identifier), and at most one handler start and one
+    goroutine per datagram, in the fine machine -/
+theorem fine_exactly_once_per_datagram (H : Hash) (cfg : Cfg) (conns : List Nat) (nD : Nat) (ls : List Label2) :
+    let s := (run2 H cfg (initWith2 conns nD) ls).base
+    (∀ i, (s.inflight.getD i []).Nodup ∧
+      ∀ key, key ∈ s.inflight.getD i [] ↔ ∃ t : Nat, s.tasks[t]? = some (⟨i, .inHandler key⟩ : Task)) ∧
+    (s.log.filter isRecv).length = s.tasks.length ∧
+    s.log.filter isRecv = s.origin.mapIdx recvOf ∧
+    ∀ t, handlerStarts s t ≤ 1 ∧
+      countSpec (s.tasks[t]?.map (·.pc)) (handlerStarts s t) (dropCount s t) (endCount s t) := by
+  have hG := InvG_run2 H cfg conns nD ls
+  have hO := InvO_run2 H cfg conns nD ls
+  have hC := InvC_run2 H cfg conns nD ls
+  refine ⟨fun i => ⟨hG.nodup i, hG.mem i⟩, ?_, hO.recvs, fun t => ⟨InvC_hsCount_le hC t, hC t⟩⟩
+  rw [hO.recvs, List.length_mapIdx, hO.len]
+
+/-- the reply at trace level, in the fine machine -/
+theorem fine_reply_answers_its_request (H : Hash) (hH : ∀ x, (H x).length = 16) (cfg : Cfg) (conns : List Nat)
+    (nD : Nat) (ls : List Label2) (t conn addr : Nat) (w : Bytes)
+    (h : Event.reply t conn addr w ∈ (run2 H cfg (initWith2 conns nD) ls).base.log) :
+    ∃ (i peer : Nat) (d : Bytes) (key : Key) (p : Packet) (sec : Bytes) (code : Int) (attrs : Attrs),
+      Event.recv t i peer d ∈ (run2 H cfg (initWith2 conns nD) ls).base.log ∧
+      addr = peer ∧ conn = conns.getD i 0 ∧
+      Event.request t p peer (conns.getD i 0) .server ∈ (run2 H cfg (initWith2 conns nD) ls).base.log ∧
+      Event.handlerStart t key ∈ (run2 H cfg (initWith2 conns nD) ls).base.log ∧
+      classify H cfg peer d = .handle key p ∧
+      cfg.secretOf peer = .secret sec ∧ sec ≠ [] ∧ parse d sec = .ok p ∧ p.secret = sec ∧
+      encode H { response p code with attrs := attrs } = .ok w ∧
+      (Rfc.encClass code = .hashReqAuth → isAuthenticResponse H w d sec = true) := by
+  obtain ⟨i, peer, d, key, p, sec, code, attrs, h1, _, h3, h4, h5, h6, h7, h8, h9, h10, h11, h12, h13⟩ :=
+    reply_answers_of_InvO hH (InvO_run2 H cfg conns nD ls) h
+  rw [connOf_run2] at h4 h5
+  exact ⟨i, peer, d, key, p, sec, code, attrs, h1, h3, h4, h5, h6, h7, h8, h9, h10, h11, h12, h13⟩
+
+/-- keeps serving, in the fine machine: a Serve call in its read loop stays in it under every step other
+    than a failing read of its own; and before Shutdown it is never blocked: holding a datagram it can
+    spawn, otherwise it can read the next one. -/
+theorem fine_keeps_serving (H : Hash) (cfg : Cfg) (hv : cfg.variant = .fixed) (conns : List Nat) (nD : Nat)
+    (ls : List Label2) (i : Nat) (l : Label2) (s' : St2)
+    (hi : (run2 H cfg (initWith2 conns nD) ls).base.serves[i]? = some .running)
+    (hs : step2 H cfg (run2 H cfg (initWith2 conns nD) ls) l = some s')
+    (hl : l ≠ .base (.serveReadErr i) ∧ ∀ k, l ≠ .base (.serveReadFail i k)) :
+    s'.base.serves[i]? = some .running ∧
+    (s'.base.sd = false →
+      (∀ x, s'.holds i = some x → (step2 H cfg s' (.serveSpawn i)).isSome = true) ∧
+      (s'.holds i = none → ∀ peer d, (step2 H cfg s' (.serveRead i peer d)).isSome = true)) := by
+  have hI := (InvF_run2_from H cfg hv [l] _ (Inv2_run H cfg conns nD ls) (InvF_run2 H cfg hv conns nD ls)).2
+  simp only [run2, hs] at hI
+  have hrun : s'.base.serves[i]? = some .running := by
+    refine step2_running_stable hs hi ?_
+    intro l0 hl0
+    subst hl0
+    cases l0 with
+    | serveRecv j peer d =>
+      by_cases hj : j = i
+      · subst hj; exact Or.inr ⟨peer, d, rfl⟩
+      · left; simp [Label.readLoopOf, hj]
+    | serveReadErr j =>
+      left; simp only [Label.readLoopOf, ne_eq, Option.some.injEq]
+      intro e; subst e; exact hl.1 rfl
+    | serveReadFail j k =>
+      left; simp only [Label.readLoopOf, ne_eq, Option.some.injEq]
+      intro e; subst e; exact hl.2 k rfl
+    | _ => left; simp [Label.readLoopOf]
+  refine ⟨hrun, fun hsd => ⟨?_, ?_⟩⟩
+  · intro x hx; rw [serveSpawn_enabled hx]; rfl
+  · intro hn peer d
+    rw [step2_serveRead_eq, if_pos ⟨hrun, hn, hI.nsd hsd _⟩]; rfl
+
 /-! ### Non-vacuity: concrete reachable states in which the hypotheses above hold
 
   One Serve call on conn 3; the hash is the constant sixteen zero octets, every peer has the secret
@@ -309,37 +519,36 @@ local notation "p0" => (Packet.mk 1 7 (zeros 16) [1] [])
 /-- hypothesis of `handler_only_if_parsed`, `handler_start_once_and_fresh`, `handler_start_has_request` -/
 example : Event.handlerStart 0 (0, 7) ∈ (run H0 cfg0 (initWith [3] 1)
     [.serveEnter 0, .serveRecv 0 0 dg0, .taskRun 0]).log := by
-  simp only [run, step, classify_example]
+  simp only [run, step, spawn, classify_example]
   decide
 
 /-- hypotheses of `handler_started_if_free` (and of `handler_iff`): spawned, classified `handle`, key free -/
 example :
     let s := run H0 cfg0 (initWith [3] 1) [.serveEnter 0, .serveRecv 0 0 dg0]
     s.tasks[0]? = some ⟨0, .spawned (.handle (0, 7) p0)⟩ ∧ (0, 7) ∉ s.inflight.getD 0 [] := by
-  simp only [run, step, classify_example]
+  simp only [run, step, spawn, classify_example]
   decide
 
 /-- hypothesis of `request_carries`: the request names peer 5 and conn 3 and the server's context -/
 example : Event.request 0 p0 5 3 .server ∈ (run H0 cfg0 (initWith [3] 1)
     [.serveEnter 0, .serveRecv 0 5 dg0, .taskRun 0]).log := by
-  simp only [run, step, classify_example5]
+  simp only [run, step, spawn, classify_example5]
   decide
 
 /-- hypothesis of `reply_on_receiving_socket`: the handler of goroutine 0 writes twice; both replies go
     out on conn 3 to peer 5 -/
 example :
     (run H0 cfg0 (initWith [3] 1)
-      [.serveEnter 0, .serveRecv 0 5 dg0, .taskRun 0, .taskReply 0, .taskReply 0, .taskFinish 0]).log =
-    [.recv 0 0 5 dg0, .request 0 p0 5 3 .server, .handlerStart 0 (5, 7), .reply 0 3 5, .reply 0 3 5,
-     .handlerEnd 0] := by
-  simp only [run, step, classify_example5]
-  decide
+      [.serveEnter 0, .serveRecv 0 5 dg0, .taskRun 0, .taskReply 0 2 [], .taskReply 0 2 [], .taskFinish 0]).log =
+    [.recv 0 0 5 dg0, .request 0 p0 5 3 .server, .handlerStart 0 (5, 7), .reply 0 3 5 ([2, 7, 0, 20] ++ zeros 16),
+     .reply 0 3 5 ([2, 7, 0, 20] ++ zeros 16), .handlerEnd 0] := by
+  decide +kernel
 
 /-- hypotheses of `request_ctx_cancelled_by_shutdown`: a request in the log and Shutdown requested -/
 example :
     let s := run H0 cfg0 (initWith [3] 1) [.serveEnter 0, .serveRecv 0 5 dg0, .taskRun 0, .downEnter 0]
     Event.request 0 p0 5 3 .server ∈ s.log ∧ s.sd = true ∧ Cfg.variant cfg0 = .fixed := by
-  simp only [run, step, classify_example5]
+  simp only [run, step, spawn, classify_example5]
   decide
 
 /-- `exactly_once_per_datagram` on a duplicate: the second datagram with the same (source, identifier)
@@ -352,7 +561,7 @@ example :
     (handlerStarts s 1, dropCount s 1, endCount s 1) = (0, 1, 0) ∧
     (handlerStarts s 2, dropCount s 2, endCount s 2) = (1, 0, 0) ∧
     s.tasks.length = 3 ∧ (s.log.filter isRecv).length = 3 := by
-  simp only [run, step, classify_example]
+  simp only [run, step, spawn, classify_example]
   decide
 
 /-- hypotheses of `reply_authentic`: a hash with 16-byte output, a datagram the pipeline hands on, a
@@ -367,5 +576,42 @@ example :
 example : isAuthenticResponse H0 ([2, 7, 0, 20] ++ zeros 16) dg0 (Packet.secret p0) = true :=
   reply_authentic H0 (by intro x; simp [zeros]) cfg0 0 dg0 (0, 7) p0 2 [] ([2, 7, 0, 20] ++ zeros 16)
     classify_example rfl (by decide)
+
+/-- hypothesis of `reply_answers_its_request` (and of `reply_on_receiving_socket`): a `reply` event with
+    its octets in the log of a reachable state; the hash has 16-octet output -/
+example : Event.reply 0 3 5 ([2, 7, 0, 20] ++ zeros 16) ∈ (run H0 cfg0 (initWith [3] 1)
+    [.serveEnter 0, .serveRecv 0 5 dg0, .taskRun 0, .taskReply 0 2 [], .taskFinish 0]).log ∧
+    (∀ x, (H0 x).length = 16) ∧ Rfc.encClass 2 = .hashReqAuth := by
+  refine ⟨by decide +kernel, by intro x; simp [zeros], rfl⟩
+
+/-- a reply the encoder refuses (code 13 is no RADIUS code Encode knows) never reaches the conn: the
+    `taskReply` step is not enabled -/
+example : step H0 cfg0 (run H0 cfg0 (initWith [3] 1) [.serveEnter 0, .serveRecv 0 5 dg0, .taskRun 0])
+    (.taskReply 0 13 []) = none := by
+  decide +kernel
+
+/-- hypotheses of `keeps_serving` / `dropped_datagram_keeps_serving`: a datagram from a peer the secret
+    source fails for (cfg: every peer errs) is waiting to be dropped while Serve call 0 reads -/
+example :
+    let s := run H0 { secretOf := fun _ => .error } (initWith [3] 1) [.serveEnter 0, .serveRecv 0 5 dg0]
+    s.serves[0]? = some .running ∧ s.sd = false ∧ s.tasks[0]? = some ⟨0, .spawned .dropSecretError⟩ ∧
+    (step H0 { secretOf := fun _ => .error } s (.taskRun 0)).isSome = true := by
+  decide +kernel
+
+/-- hypothesis of `secret_with_error_is_dropped`: a source that returns the right secret AND an error -/
+example : classify H0 { secretOf := fun _ => SecretAns.ofPair [1] true } 0 dg0 = .dropSecretError ∧
+    classify H0 { secretOf := fun _ => SecretAns.ofPair [1] false } 0 dg0 = .handle (0, 7) p0 := by
+  decide +kernel
+
+/-- the fine machine: the datagram is read, THEN Shutdown runs, then the goroutine is spawned, the handler
+    starts and replies — hypotheses of `fine_handler_only_if_parsed` and `fine_reply_answers_its_request`
+    in a state in which the read and the spawn are separated by a Shutdown -/
+example :
+    (run2 H0 cfg0 (initWith2 [3] 1)
+      [.base (.serveEnter 0), .serveRead 0 5 dg0, .base (.downEnter 0), .serveSpawn 0, .base (.taskRun 0),
+       .base (.taskReply 0 2 [])]).base.log =
+    [.listenerClosed 3, .recv 0 0 5 dg0, .request 0 p0 5 3 .server, .handlerStart 0 (5, 7),
+     .reply 0 3 5 ([2, 7, 0, 20] ++ zeros 16)] := by
+  decide +kernel
 
 end RV.C06
